@@ -11,6 +11,7 @@ import signal
 import sys
 
 import hpack
+import hpack.exceptions
 import hpack.table
 from hpack import Decoder, Encoder, HeaderTuple, NeverIndexedHeaderTuple
 from hpack.exceptions import (HPACKDecodingError, InvalidTableIndexError, InvalidTableSizeError,
@@ -64,12 +65,16 @@ def zp(s):
 
 
 def exn_name(e):
+    """the most specific documented class; every documented class must still be a
+    HPACKDecodingError (and a HPACKError): an application catches the family by its base"""
+    fam = "" if isinstance(e, HPACKDecodingError) and isinstance(e, hpack.exceptions.HPACKError) \
+        else "!outside-the-HPACKDecodingError-family"
     if isinstance(e, InvalidTableIndexError):
-        return "InvalidTableIndex"
+        return "InvalidTableIndex" + fam
     if isinstance(e, OversizedHeaderListError):
-        return "OversizedHeaderListError"
+        return "OversizedHeaderListError" + fam
     if isinstance(e, InvalidTableSizeError):
-        return "InvalidTableSizeError"
+        return "InvalidTableSizeError" + fam
     if isinstance(e, HPACKDecodingError):
         return "HPACKDecodingError"
     return type(e).__name__
@@ -196,6 +201,9 @@ def main():
             r = call(f, hx) + " " + show_enc(e)
         elif c == "dnew":
             decs[w[1]] = Decoder(max_header_list_size=zp(w[2]))
+            r = "ok " + show_dec(decs[w[1]])
+        elif c == "dnewd":
+            decs[w[1]] = Decoder()          # every default
             r = "ok " + show_dec(decs[w[1]])
         elif c in ("dsetmax", "dsetsize", "dsetlist"):
             d = decs[w[1]]
